@@ -697,12 +697,12 @@ structure VexRuleM (rule : Rule) (nimm : Nat) : Prop where
   hrev : rule.immRev = false
   hosz : rule.osz = 0
 
-/-- shape [reg, vvvv, MEM] with a `[base64 + disp]` operand without segment / broadcast: all conditions of the monitor hold -/
+/-- shape [reg, vvvv, MEM] with a 64-bit-addressed, non-VSIB memory operand without segment / broadcast: all conditions of the monitor hold -/
 theorem vex_rvm_mem_formOk (ctx : Spec.X86.Ctx) (rule : Rule) (p : Parsed) (mb : BitVec 8) (bytes : List (BitVec 8))
     (k0 k1 : RegKind) (f0 f1 f2 : FormOp) (i0 i1 : Nat) (m : MemOp)
     (hm64 : ctx.mode64 = true) (hmode : (rule.modes &&& 2 != 0) = true) (hk0 : PlainKind k0) (hk1 : PlainKind k1)
     (R : VexRuleM rule 0) (hf0 : f0.role = .reg) (hf1 : f1.role = .vvvv) (hf2 : f2.role = .rm)
-    (hbk : m.baseKind = .gpq) (hik : m.indexKind = .none) (hseg : m.seg = 0) (hbc : m.bcst = 0)
+    (hwa : wantedAddrSize true m = 64) (hvs : vsibOf m = .none) (hseg : m.seg = 0) (hbc : m.bcst = 0)
     (hal : alignOps rule.oszEff rule.ops [.reg k0 i0, .reg k1 i1, .mem m] =
            some [(f0, some (.reg k0 i0)), (f1, some (.reg k1 i1)), (f2, some (.mem m))])
     (hparse : parse true rule bytes = .ok p) (P : VexParsedM rule p mb)
@@ -720,7 +720,7 @@ theorem vex_rvm_mem_formOk (ctx : Spec.X86.Ctx) (rule : Rule) (p : Parsed) (mb :
   simp only [allOk_cons, allOk_append, decorConds, headConds, prefixConds, modrmConds, operandConds, opConds, tailConds, hf0, hf1, hf2,
     regConds_plain _ _ _ _ _ hk0, regConds_plain _ _ _ _ _ hk1, allOk_nil, memOperandOf, implMemOf, usesVvvv, memDestOf, hcm, Spec.X86.ofExcept,
     hasBcst, hleg, hri, hmodrm, hpfx, hrex, List.foldl, List.find?]
-  simp [hop, hmap, hpp, hreg, hvv, hmod', hmr, hmrm, hs4, hvk0, hpp8, ha67, hbc, hseg, hbk, hik, wantedAddrSize, segPrefix, vsibOf, hm64, allOk]
+  simp [hop, hmap, hpp, hreg, hvv, hmod', hmr, hmrm, hs4, hvk0, hpp8, ha67, hbc, hseg, hwa, hvs, segPrefix, hm64, allOk]
   have hvk0' : ¬ p.vexKind = 0 := by rcases hvk with h | h | h | h <;> omega
   and_intros
   all_goals first
